@@ -1,10 +1,11 @@
 (* Extraction of the writer models (C06) for the correspondence driver (tag "writer").
-   entry 1: ops on the raw socket; entry 2: ops over the WebSocket wrapper; entry 3: deframe. *)
+   entry 1: ops on the raw socket; entry 2: ops over the WebSocket wrapper; entry 3: deframe;
+   entry 4: _send_impl / _send_control_frame call sequences on the WebSocket wrapper. *)
 From Coq Require Import Extraction ExtrOcamlBasic.
-From PahoV Require Import Base.Prelude Link.Writer Link.WsWriter.
+From PahoV Require Import Base.Prelude Link.Writer Link.WsWriter Link.WsControl.
 Extraction Language OCaml.
 
 Definition entries : list (Z * (list Z -> list Z)) :=
-  [ (1, entry_raw); (2, entry_ws); (3, entry_deframe) ].
+  [ (1, entry_raw); (2, entry_ws); (3, entry_deframe); (4, entry_wsctl) ].
 
 Extraction "model_writer.ml" entries.
